@@ -330,6 +330,16 @@ func init() {
 						extra := c07GenLocalEntity(w, pr.L, []uint{9})
 						pr.L.AddEntity(extra)
 						w.Yield("tree")
+						// (descriptions and functions of announced features change while discovery reads,
+						// well-formed or not, are answered: seed C05-g)
+						for k := 1 + w.T.Choose(3, "describe-ops"); k > 0; k-- {
+							if sf := pr.Servers[w.T.Choose(len(pr.Servers), "described-feature")]; w.T.Bool(1, 2, "describe") {
+								sf.F.SetDescriptionString(fmt.Sprintf("description-%d", w.Uniq()))
+							} else {
+								sf.F.SetDescription(nil)
+							}
+							w.Yield("describe")
+						}
 						pr.L.RemoveEntity(extra)
 						w.Probe("c05-app-changed-tree")
 					}
@@ -340,6 +350,12 @@ func init() {
 				good.AwaitDiscovery()
 				n := 2 + w.T.Choose(6, "nmsgs")
 				for i := 0; i < n; i++ {
+					if w.T.Bool(1, 4, "discovery-read") {
+						cmd := model.CmdType{NodeManagementDetailedDiscoveryData: &model.NodeManagementDetailedDiscoveryDataType{}}
+						good.SendCmd(good.NM().Address(), good.LocalNM(), model.CmdClassifierTypeRead, nil, cmd, "read-discovery")
+						w.Probe("c05-discovery-read-during-traffic")
+						continue
+					}
 					dg, tag := c05GenValid(w, pr, good)
 					good.Send(dg, tag)
 				}
